@@ -152,6 +152,38 @@ theorem losers_fail (one : Int) (hs : List HeadInfo) (cs : List Nat) (w h : Head
   rw [hf] at this
   exact (mem_filter.1 this).1
 
+/-- `identical_cowin`, action part (one group iteration, any action table `t`): when the picked head starts an
+    action `b` and no other head of the group already holds `b`, then after the iteration `b` is still present and its
+    `flow_scope_count` is 1 (set by the generated Start event) plus the number of re-pointed references of the
+    co-winners — the action exists once, is started once and is shared by all co-winners. -/
+theorem cowin_action_shared_once (one : Int) (g : List HeadInfo) (c : Nat) (t : ActTbl) (w : HeadInfo) (b : Nat)
+    (hw : (w, Fate.picked) ∈ resolveGroup one g c) (hb : w.act = some b) (hst : w.isStart = true)
+    (hin : (scopeOf b t).isSome = true) (hd : ∀ h ∈ g, h.uid ≠ w.uid → h.act ≠ some b) :
+    scopeOf b (applyFates none (resolveGroup one g c) t) = some (1 + cowinRefs (resolveGroup one g c)) :=
+  group_scope_count one g c t w b hw hb hst hin hd
+
+/-- … which is "number of co-winners + 1" when every co-winner holds its own action through exactly one reference
+    (what `start Action(...)` produces). -/
+theorem cowin_scope_is_number_of_cowinners (one : Int) (g : List HeadInfo) (c : Nat) (t : ActTbl) (w : HeadInfo) (b : Nat)
+    (hw : (w, Fate.picked) ∈ resolveGroup one g c) (hb : w.act = some b) (hst : w.isStart = true)
+    (hin : (scopeOf b t).isSome = true) (hd : ∀ h ∈ g, h.uid ≠ w.uid → h.act ≠ some b)
+    (h1 : ∀ p ∈ resolveGroup one g c, p.2 = Fate.cowin → p.1.act.isSome = true ∧ p.1.nrefs = 1) :
+    scopeOf b (applyFates none (resolveGroup one g c) t) =
+      some (1 + ((resolveGroup one g c).filter (fun p => p.2 == Fate.cowin)).length) := by
+  rw [group_scope_count one g c t w b hw hb hst hin hd, cowinRefs_eq_count _ h1]
+
+/-- non-vacuity of the hypotheses of the two theorems above: winner 2 (action 11), co-winner 1 (action 10). -/
+example : (⟨2, 2, 1, [3], 1, some 11, 1, true, false⟩, Fate.picked) ∈
+    resolveGroup 5 [⟨1, 1, 1, [3], 1, some 10, 1, true, false⟩, ⟨2, 2, 1, [3], 1, some 11, 1, true, false⟩] 1 := by decide
+
+/-- The co-winner branch of the UNPATCHED source deletes the winning action when both heads already share it
+    (open finding `cowin-on-shared-action`); the repaired branch (`cowinEffect`, fixes/C05-shared-action-cowin.diff)
+    leaves it alone.  Finite witness, by evaluation. -/
+theorem shared_action_cowin_as_is_counterexample :
+    scopeOf 10 (cowinEffectAsIs ⟨1, 1, 1, [5], 1, some 10, 1, false, false⟩ ⟨2, 2, 1, [5], 1, some 10, 1, false, false⟩ [(10, 2)]) = none ∧
+    scopeOf 10 (cowinEffect ⟨1, 1, 1, [5], 1, some 10, 1, false, false⟩ ⟨2, 2, 1, [5], 1, some 10, 1, false, false⟩ [(10, 2)]) = some 2 := by
+  decide
+
 /-- A head that is not in the input (its match did not fit: score 0, never actionable) has no fate: the function
     touches only its input heads. -/
 theorem only_input_heads (one : Int) (hs : List HeadInfo) (cs : List Nat) (p : HeadInfo × Fate)
